@@ -36,6 +36,7 @@ OverrideIsDef ==
     /\ BigMul(x, y) = BigMulDef(x, y)
     /\ BigCmp(x, y) = BigCmpDef(x, y)
     /\ \A k \in {0, 1, 14, 15, 16, 29, 30, 31, 45, 100} : BigShl(x, k) = BigShlDef(x, k)
+    /\ \A k \in {0, 1, 14, 15, 16, 29, 30, 31, 45, 100} : BigShr(x, k) = BigShrDef(x, k)
 
 Laws ==
     /\ BigAddDef(x, y) = BigAddDef(y, x)
@@ -46,6 +47,8 @@ Laws ==
     /\ BigCmpDef(BigAddDef(x, BigOfInt(1)), x) = 1
     /\ BigShlDef(x, 17) = BigMulDef(x, BigOfInt(131072))
     /\ (Sgn(x) = 0) = (Mag(x) = <<>>)
+    /\ \A k \in {0, 7, 15, 33} : BigShrDef(BigShlDef(x, k), k) = x
+    /\ BigCmpDef(BigAbs(BigShlDef(BigShrDef(x, 9), 9)), BigAbs(x)) <= 0
     /\ DyCmp(Dy(x, 3), Dy(BigShlDef(x, 3), 0)) = 0
     /\ DyEq(DyAdd(Dy(x, -5), Dy(y, 7)), Dy(BigAddDef(x, BigShlDef(y, 12)), -5))
 
